@@ -1,31 +1,54 @@
 """Implementation side of C01: build the generated pipeline (YAML text through pyxel.load, or Python
-objects), run it in the requested mode and return what the `verif_probes.record` probe saw.
+objects), run it in the requested mode and return what the recording probes saw.
 
-payload:
+single-run payload (kind absent or "single"):
   spec     [[key, models|None], ...]   the `pipeline:` mapping in (shuffled) key order;
-           model = {name, enabled, explicit_enabled, arguments: dict|None}
+           model = {name, enabled, explicit_enabled, arguments: dict|None, func (optional)}
   steps    number of readout times
   variant  "yaml" | "python"
+  det      "ccd" | "cmos" | "mkid" | "apd"   (default "ccd")
   mode     "exposure" | "observation" | "calibration"
   debug    bool (exposure only)
-  params   observation: [{group, model, key, values:[int...]}]
-result:
-  {"trace": [[step, name, {kwargs}], ...], "nodes": [[step, group, name], ...] | None,
-   "det_ok": bool, "error": class name | None}
+  nd       bool: non-destructive readout (exposure / observation; the execution of models must not depend on it)
+  params   observation: [{group, model, path: [key, inner...], values:[int...]}]; omode "sequential" | "product";
+           dask: bool (with_dask, run under the synchronous scheduler and computed)
+  result:  {"trace": [[step, name, {kwargs}], ...], "nodes": [[step, group, name], ...] | None,
+            "det_ok": bool, "error": class name | None}
+
+history payload (kind "hist"): spec / variant / det as above (object 0) and
+  ops      [{"op": "run", "obj", "mode", "steps", "debug", "params", "omode"} |
+            {"op": "enable", "obj", "group", "index", "value", "via": "attr" | "set"} |
+            {"op": "setarg", "obj", "group", "model", "path", "value"} |
+            {"op": "models", "obj", "group", "sel": [old indices]} |
+            {"op": "insert", "obj", "group", "index", "model": {...}} |
+            {"op": "copy", "obj", "how": "deep" | "processor" | "pickle"}]
+  result:  {"runs": [one single-run result per "run" op]}; when a configuration operation raises, every
+           later run is reported as {"error": <class>, "stage": "op"}.
+All runs of a history use ONE detector object (the usual notebook workflow).
 """
 from __future__ import annotations
 
+import copy
 import itertools
 import os
+import pickle
 
 _COUNTER = itertools.count()
 
-DETECTOR_DOC = {
-    "geometry": {"row": 2, "col": 2, "total_thickness": 40.0, "pixel_vert_size": 10.0, "pixel_horz_size": 10.0},
-    "environment": {"temperature": 200.0},
-    "characteristics": {"quantum_efficiency": 1.0, "charge_to_volt_conversion": 1.0e-6, "pre_amplification": 1.0,
-                        "full_well_capacity": 100000, "adc_bit_resolution": 16, "adc_voltage_range": [0.0, 10.0]},
-}
+_GEO = {"row": 2, "col": 2, "total_thickness": 40.0, "pixel_vert_size": 10.0, "pixel_horz_size": 10.0}
+_CHAR = {"quantum_efficiency": 1.0, "charge_to_volt_conversion": 1.0e-6, "pre_amplification": 1.0,
+         "full_well_capacity": 100000, "adc_bit_resolution": 16, "adc_voltage_range": [0.0, 10.0]}
+_APD_CHAR = {"roic_gain": 0.8, "quantum_efficiency": 1.0, "full_well_capacity": 100000, "adc_bit_resolution": 16,
+             "adc_voltage_range": [0.0, 10.0], "avalanche_gain": 1.0, "pixel_reset_voltage": 5.0}
+DETECTOR_KEY = {"ccd": "ccd_detector", "cmos": "cmos_detector", "mkid": "mkid_detector", "apd": "apd_detector"}
+
+
+def detector_doc(kind):
+    return {"geometry": dict(_GEO), "environment": {"temperature": 200.0},
+            "characteristics": dict(_APD_CHAR if kind == "apd" else _CHAR)}
+
+
+DETECTOR_DOC = detector_doc("ccd")
 
 FUNC = "verif_probes.record"
 ERRORS = ("TypeError", "ValueError", "KeyError", "AttributeError", "NotImplementedError", "RuntimeError")
@@ -40,7 +63,7 @@ def _model_doc(m):
     if not m["enabled"] or m.get("explicit_enabled", True):
         d["enabled"] = bool(m["enabled"])
     if m.get("arguments") is not None:
-        d["arguments"] = m["arguments"]
+        d["arguments"] = copy.deepcopy(m["arguments"])
     return d
 
 
@@ -49,15 +72,20 @@ def _pipeline_doc(spec):
 
 
 def _param_key(p):
-    return f"pipeline.{p['group']}.{p['model']}.arguments.{p['key']}"
+    path = p["path"] if "path" in p else [p["key"]]
+    return f"pipeline.{p['group']}.{p['model']}.arguments." + ".".join(str(x) for x in path)
+
+
+def _readout_doc(steps, nd=False):
+    return {"times": _times(steps), "non_destructive": bool(nd)}
 
 
 def _mode_doc(p):
-    readout = {"times": _times(p["steps"]), "non_destructive": False}
+    readout = _readout_doc(p["steps"], p.get("nd"))
     if p["mode"] == "exposure":
         return {"exposure": {"readout": readout}}
     if p["mode"] == "observation":
-        return {"observation": {"mode": "sequential", "with_dask": False, "readout": readout,
+        return {"observation": {"mode": p.get("omode", "sequential"), "with_dask": bool(p.get("dask")), "readout": readout,
                                 "parameters": [{"key": _param_key(q), "values": list(q["values"])}
                                                for q in p["params"]]}}
     if p["mode"] == "calibration":
@@ -67,11 +95,15 @@ def _mode_doc(p):
 
 def _calibration_doc(p):
     # the fitted parameter is a detector characteristic: model arguments stay as configured
+    steps = int(p.get("steps", 1))
+    if steps > 1:   # time-domain target: a (readout time, y, x) cube and 6-value fit ranges
+        shape = {"readout": _readout_doc(steps), "result_fit_range": [0, steps, 0, 2, 0, 2],
+                 "target_data_path": ["target3d.npy"], "target_fit_range": [0, steps, 0, 2, 0, 2]}
+    else:           # default readout (one step)
+        shape = {"result_fit_range": [0, 2, 0, 2], "target_data_path": ["target.npy"], "target_fit_range": [0, 2, 0, 2]}
     return {
-        # default readout (one step): with explicit times the target must be a (time, y, x) cube, and that path
-        # of the calibration code does not run (FitRange3D names the dimension "time", the data "readout_time")
-        "mode": "pipeline", "result_type": "pixel", "result_fit_range": [0, 2, 0, 2],
-        "target_data_path": ["target.npy"], "target_fit_range": [0, 2, 0, 2],
+        **shape,
+        "mode": "pipeline", "result_type": "pixel",
         "pipeline_seed": 1234, "num_islands": 1, "num_evolutions": 1, "num_best_decisions": 0,
         "fitness_function": {"func": "pyxel.calibration.fitness.sum_of_abs_residuals"},
         "algorithm": {"type": "sade", "generations": 2, "population_size": 8, "variant": 2},
@@ -84,49 +116,63 @@ def full_yaml(p) -> str:
     import yaml
 
     doc = dict(_mode_doc(p))
-    doc["ccd_detector"] = DETECTOR_DOC
+    kind = p.get("det", "ccd")
+    doc[DETECTOR_KEY[kind]] = detector_doc(kind)
     doc["pipeline"] = _pipeline_doc(p["spec"])
     return yaml.safe_dump(doc, sort_keys=False, default_flow_style=False)
 
 
+def _model_function(m):
+    from pyxel.pipelines import ModelFunction
+
+    return ModelFunction(func=m.get("func", FUNC), name=m["name"], arguments=copy.deepcopy(m.get("arguments")),
+                         enabled=bool(m["enabled"]))
+
+
+def _mode_object(p):
+    from harness import pyx
+
+    readout = pyx.make_readout(times=_times(p["steps"]), non_destructive=bool(p.get("nd")))
+    if p["mode"] == "exposure":
+        from pyxel.exposure import Exposure
+        return Exposure(readout=readout)
+    if p["mode"] == "observation":
+        from pyxel.observation import Observation, ParameterValues
+        return Observation(parameters=[ParameterValues(key=_param_key(q), values=list(q["values"]))
+                                       for q in p["params"]],
+                           mode=p.get("omode", "sequential"), readout=readout, with_dask=bool(p.get("dask")))
+    raise ValueError("calibration is only driven through YAML")
+
+
 def _build_python(p):
     from harness import pyx
-    from pyxel.pipelines import DetectionPipeline, ModelFunction
+    from pyxel.pipelines import DetectionPipeline
 
     kw = {}
     for k, ms in p["spec"]:
-        kw[k] = None if ms is None else [
-            ModelFunction(func=m.get("func", FUNC), name=m["name"], arguments=m.get("arguments"),
-                          enabled=bool(m["enabled"])) for m in ms]
+        kw[k] = None if ms is None else [_model_function(m) for m in ms]
     pipeline = DetectionPipeline(**kw)
-    detector = pyx.make_detector(rows=2, cols=2)
-    readout = pyx.make_readout(times=_times(p["steps"]))
-    if p["mode"] == "exposure":
-        from pyxel.exposure import Exposure
-        mode = Exposure(readout=readout)
-    elif p["mode"] == "observation":
-        from pyxel.observation import Observation, ParameterValues
-        mode = Observation(parameters=[ParameterValues(key=_param_key(q), values=list(q["values"]))
-                                       for q in p["params"]],
-                           mode="sequential", readout=readout, with_dask=False)
-    else:
-        raise ValueError("calibration is only driven through YAML")
-    return mode, detector, pipeline
+    detector = pyx.make_detector(kind=p.get("det", "ccd"), rows=2, cols=2)
+    return _mode_object(p), detector, pipeline
 
 
-def _build_yaml(p):
+def _load_yaml_text(text):
     import pyxel
 
     fn = f"c01_{os.getpid()}_{next(_COUNTER)}.yaml"
     with open(fn, "w") as f:
-        f.write(full_yaml(p))
+        f.write(text)
     try:
-        cfg = pyxel.load(fn)
+        return pyxel.load(fn)
     finally:
         try:
             os.remove(fn)
         except OSError:
             pass
+
+
+def _build_yaml(p):
+    cfg = _load_yaml_text(full_yaml(p))
     mode = getattr(cfg, p["mode"])
     return mode, cfg.detector, cfg.pipeline
 
@@ -151,28 +197,28 @@ def _canon_kwargs(kw):
     return {k: kw[k] for k in sorted(kw)}
 
 
-def handle(p):
-    import numpy as np
+def _err(ex, stage):
+    cls = type(ex).__name__
+    return {"error": cls if cls in ERRORS else "Other", "stage": stage, "msg": str(ex)[:300],
+            "notes": [str(n)[:200] for n in getattr(ex, "__notes__", [])]}
+
+
+def _run_once(p, mode, detector, pipeline):
+    """One pyxel.run_mode call; returns the single-run result dict."""
     import pyxel
     import verif_probes as vp
 
-    vp.reset()
-    if p["mode"] == "calibration":
-        assert p["steps"] == 1
-        np.save("target.npy", np.ones((2, 2)))
-    try:
-        if p["variant"] == "yaml":
-            mode, detector, pipeline = _build_yaml(p)
-        else:
-            mode, detector, pipeline = _build_python(p)
-    except Exception as ex:  # noqa: BLE001
-        cls = type(ex).__name__
-        return {"error": cls if cls in ERRORS else "Other", "stage": "build", "msg": str(ex)[:200]}
     vp.reset()
     try:
         if p["mode"] == "exposure":
             result = pyxel.run_mode(mode=mode, detector=detector, pipeline=pipeline, debug=bool(p.get("debug")),
                                     with_inherited_coords=True)
+        elif p["mode"] == "observation" and p.get("dask"):
+            import dask
+            # one task per run; with the synchronous scheduler the calls of a run stay together
+            with dask.config.set(scheduler="synchronous"):
+                result = pyxel.run_mode(mode=mode, detector=detector, pipeline=pipeline, with_inherited_coords=True)
+                result = result.compute()
         elif p["mode"] == "observation":
             result = pyxel.run_mode(mode=mode, detector=detector, pipeline=pipeline, with_inherited_coords=True)
         else:
@@ -184,9 +230,7 @@ def handle(p):
                 except Exception:  # noqa: BLE001 - only the calls made are of interest here
                     pass
     except Exception as ex:  # noqa: BLE001
-        cls = type(ex).__name__
-        return {"error": cls if cls in ERRORS else "Other", "stage": "run", "msg": str(ex)[:300],
-                "notes": [str(n)[:200] for n in getattr(ex, "__notes__", [])]}
+        return _err(ex, "run")
     entries = [e for e in vp.TRACE if e.get("probe") == "record"]
     trace = [[int(e["step"]), str(e["name"]), _canon_kwargs(e["kwargs"])] for e in entries]
     ids = {e["det_id"] for e in entries}
@@ -196,3 +240,109 @@ def handle(p):
         det_ok = id(detector) not in ids        # every run works on its own copy
     nodes = _nodes(result) if (p["mode"] == "exposure" and p.get("debug")) else None
     return {"trace": trace, "nodes": nodes, "det_ok": bool(det_ok), "error": None}
+
+
+def _save_targets(steps):
+    import numpy as np
+
+    np.save("target.npy", np.ones((2, 2)))
+    if steps > 1:
+        np.save("target3d.npy", np.ones((int(steps), 2, 2)))
+
+
+def handle(p):
+    import verif_probes as vp
+
+    if p.get("kind") == "hist":
+        return handle_hist(p)
+    vp.reset()
+    if p["mode"] == "calibration":
+        _save_targets(p["steps"])
+    try:
+        if p["variant"] == "yaml":
+            mode, detector, pipeline = _build_yaml(p)
+        else:
+            mode, detector, pipeline = _build_python(p)
+    except Exception as ex:  # noqa: BLE001
+        return _err(ex, "build")
+    return _run_once(p, mode, detector, pipeline)
+
+
+# ------------------------------------------------------------------------------------------ histories
+
+
+def _apply_config_op(op, objs, detector):
+    from pyxel.pipelines import Processor
+
+    pipe = objs[op["obj"]]
+    kind = op["op"]
+    if kind == "enable":
+        grp = getattr(pipe, op["group"])
+        if op.get("via") == "set":
+            name = grp.models[op["index"]].name
+            Processor(detector=detector, pipeline=pipe).set(f"pipeline.{op['group']}.{name}.enabled", bool(op["value"]))
+        else:
+            grp.models[op["index"]].enabled = bool(op["value"])
+    elif kind == "setarg":
+        Processor(detector=detector, pipeline=pipe).set(_param_key(op), op["value"])
+    elif kind == "models":
+        grp = getattr(pipe, op["group"])
+        old = list(grp.models)
+        grp.models = [old[j] for j in op["sel"]]
+    elif kind == "insert":
+        grp = getattr(pipe, op["group"])
+        old = list(grp.models)
+        grp.models = old[:op["index"]] + [_model_function(op["model"])] + old[op["index"]:]
+    elif kind == "copy":
+        if op["how"] == "deep":
+            objs.append(copy.deepcopy(pipe))
+        elif op["how"] == "processor":
+            objs.append(copy.deepcopy(Processor(detector=detector, pipeline=pipe)).pipeline)
+        elif op["how"] == "pickle":
+            objs.append(pickle.loads(pickle.dumps(pipe)))
+        else:
+            raise ValueError(op["how"])
+    else:
+        raise ValueError(kind)
+
+
+def handle_hist(p):
+    import verif_probes as vp
+
+    vp.reset()
+    first = dict(p, mode="exposure", steps=1)
+    try:
+        if p["variant"] == "yaml":
+            _, detector, pipeline = _build_yaml(first)
+        else:
+            _, detector, pipeline = _build_python(first)
+    except Exception as ex:  # noqa: BLE001
+        return dict(_err(ex, "build"), runs=[])
+    objs = [pipeline]
+    runs = []
+    broken = None
+    for op in p["ops"]:
+        if op["op"] != "run":
+            if broken is None:
+                try:
+                    _apply_config_op(op, objs, detector)
+                except Exception as ex:  # noqa: BLE001
+                    broken = _err(ex, "op")
+                    broken["op"] = op
+            continue
+        if broken is not None:
+            runs.append(dict(broken))
+            continue
+        q = dict(op, det=p.get("det", "ccd"))
+        try:
+            if op["mode"] == "calibration":
+                _save_targets(op["steps"])
+                cal = dict(q, spec=[], variant="yaml")
+                mode = _load_yaml_text(full_yaml(cal)).calibration
+            else:
+                mode = _mode_object(q)
+        except Exception as ex:  # noqa: BLE001
+            runs.append(_err(ex, "build"))
+            continue
+        runs.append(_run_once(q, mode, detector, objs[op["obj"]]))
+    return {"runs": runs}
